@@ -108,8 +108,10 @@ Proof.
 Qed.
 
 (* ---------- the invariant ---------- *)
-Definition stopped_phase (p : apc) : Prop := p = PStop2 \/ p = PStop3 \/ p = PStop4 \/ p = PStopped \/ p = PStart1.
-Definition no_loop_phase (p : apc) : Prop := p = PStop3 \/ p = PStop4 \/ p = PStopped \/ p = PStart1 \/ p = PStart2.
+Definition stopped_phase (p : apc) : Prop := p = PStop2 \/ p = PStop3 \/ p = PStop3r \/ p = PStop4 \/ p = PStopped \/ p = PStart1.
+Definition no_loop_phase (p : apc) : Prop := p = PStop3 \/ p = PStop3r \/ p = PStop4 \/ p = PStopped \/ p = PStart1 \/ p = PStart2.
+(* the registry is exact except between Stop's first snapshot and its return *)
+Definition exact_phase (p : apc) : Prop := p <> PStop3r /\ p <> PStop4.
 Definition serving (s : sys) (fld : option nat) : Prop :=
   exists l, fld = Some l /\ In l (open_lis s) /\ exists a, In a (loops s) /\ al_lis a = l /\ al_done a = false.
 
@@ -133,50 +135,52 @@ Record Inv (s : sys) : Prop := {
   i_cfg_t : pc s = PStart2 \/ pc s = PStart3 \/ pc s = PRunning \/ pc s = PStop1 -> cfg_tls s = true -> fld_tls s <> None;
   i_run_p : pc s = PStart3 \/ pc s = PRunning \/ pc s = PStop1 -> forall l, fld_plain s = Some l -> serving s (fld_plain s);
   i_run_t : pc s = PRunning \/ pc s = PStop1 -> forall l, fld_tls s = Some l -> serving s (fld_tls s);
-  i_exact : pc s <> PStop4 -> forall c, In c (conns s) -> ct_st c = CRegistered -> In (ct_id c) (registry s)
+  i_exact : exact_phase (pc s) -> forall c, In c (conns s) -> ct_st c = CRegistered -> In (ct_id c) (registry s);
+  (* a socket stays tracked until its goroutine returns: what Stop's second snapshot relies on *)
+  i_live : forall c, In c (conns s) -> not_done c = true -> In (ct_id c) (live s)
 }.
 
 Ltac split_or H := repeat (destruct H as [H|H]; try discriminate); try discriminate.
 
 Lemma inv_init p t : Inv (init p t).
 Proof.
-  constructor; cbn [init open_lis fld_plain fld_tls stopping registry loops conns accept_wg conn_wg next_id pc cfg_plain cfg_tls map];
+  constructor; cbn [init open_lis fld_plain fld_tls stopping registry live loops conns accept_wg conn_wg next_id pc cfg_plain cfg_tls map];
     try solve [constructor]; try solve [intros; contradiction]; try solve [reflexivity];
     try solve [intros ? [H|H]; discriminate]; try solve [intros; discriminate];
     try solve [intros H; split_or H]; try solve [intros H ? ?; split_or H]; try solve [intros H ?; split_or H].
   - intros _. auto.
 Qed.
 
-Ltac projs := cbn [open_lis fld_plain fld_tls stopping registry loops conns accept_wg conn_wg next_id pc cfg_plain cfg_tls] in *.
+Ltac projs := cbn [open_lis fld_plain fld_tls stopping registry live loops conns accept_wg conn_wg next_id pc cfg_plain cfg_tls] in *.
 
 (* clauses that carry over unchanged *)
 Ltac keep I :=
   first [ exact (i_nodup _ I) | exact (i_ids _ I) | exact (i_cwg _ I) | exact (i_reg _ I) | exact (i_done _ I) | exact (i_lnodup _ I)
-        | exact (i_lids _ I) | exact (i_awg _ I) | exact (i_open _ I) | exact (i_flds _ I) | exact (i_fld_ne _ I) ].
+        | exact (i_lids _ I) | exact (i_awg _ I) | exact (i_open _ I) | exact (i_flds _ I) | exact (i_fld_ne _ I) | exact (i_live _ I) ].
 
 Ltac phase_false := let H := fresh in intros H; unfold stopped_phase, no_loop_phase in *; split_or H.
 
 Lemma inv_start_begin s s' : Inv s -> lstep s LStartBegin = Some s' -> Inv s'.
 Proof.
   intros I H. cbn [lstep] in H. destruct (pc s) eqn:P; try discriminate. inversion H; subst; clear H.
-  destruct (i_closed s I) as (C1 & C2 & C3); [unfold stopped_phase; rewrite P; auto|].
+  destruct (i_closed s I) as (C1 & C2 & C3); [unfold stopped_phase; rewrite P; auto 10|].
   constructor; projs; try keep I.
   - intros _. auto.
-  - intros _. apply (i_noloops s I). unfold no_loop_phase. rewrite P. auto.
+  - intros _. apply (i_noloops s I). unfold no_loop_phase. rewrite P. auto 10.
   - discriminate.
   - intros H; split_or H.
   - intros H; split_or H.
   - intros H; split_or H.
   - intros H; split_or H.
   - intros H; split_or H.
-  - intros _. apply (i_exact s I). rewrite P. discriminate.
+  - intros _. apply (i_exact s I). rewrite P. split; discriminate.
 Qed.
 
 Lemma inv_start_open s s' : Inv s -> lstep s LStartOpen = Some s' -> Inv s'.
 Proof.
   intros I H. cbn [lstep] in H. destruct (pc s) eqn:P; try discriminate. inversion H; subst; clear H.
-  destruct (i_closed s I) as (C1 & C2 & C3); [unfold stopped_phase; rewrite P; auto|].
-  assert (NL : forall a, In a (loops s) -> al_done a = true) by (apply (i_noloops s I); unfold no_loop_phase; rewrite P; auto).
+  destruct (i_closed s I) as (C1 & C2 & C3); [unfold stopped_phase; rewrite P; auto 10|].
+  assert (NL : forall a, In a (loops s) -> al_done a = true) by (apply (i_noloops s I); unfold no_loop_phase; rewrite P; auto 10).
   constructor; projs; try keep I.
   - intros c Hc. pose proof (i_ids s I c Hc). lia.
   - intros a Ha. pose proof (i_lids s I a Ha). lia.
@@ -199,7 +203,7 @@ Proof.
   - intros _ Hc. rewrite Hc. discriminate.
   - intros H; split_or H.
   - intros H; split_or H.
-  - intros _. apply (i_exact s I). rewrite P. discriminate.
+  - intros _. apply (i_exact s I). rewrite P. split; discriminate.
 Qed.
 
 Lemma serving_mono (s s' : sys) fld : open_lis s' = open_lis s -> (forall a, In a (loops s) -> In a (loops s')) -> serving s fld -> serving s' fld.
@@ -233,7 +237,8 @@ Proof.
     | (try rewrite <- F; intros _; apply (i_cfg_t s I); orP P)
     | (try rewrite <- F; intros _ l Hl; exists lis; split; [exact F|]; split; [exact Op|]; eexists; split; [left; reflexivity|]; split; reflexivity)
     | (try rewrite <- F; intros H; split_or H)
-    | (try rewrite <- F; intros _; apply (i_exact s I); rewrite P; discriminate) ].
+    | (try rewrite <- F; intros _; apply (i_exact s I); rewrite P; split; discriminate)
+    | (keep I) ].
   - constructor; projs; [
       (keep I)
     | (keep I)
@@ -254,7 +259,8 @@ Proof.
     | (intros _; apply (i_cfg_t s I); orP P)
     | (intros _ l Hl; discriminate)
     | (intros H; split_or H)
-    | (intros _; apply (i_exact s I); rewrite P; discriminate) ].
+    | (intros _; apply (i_exact s I); rewrite P; split; discriminate)
+    | (keep I) ].
 Qed.
 
 Lemma inv_spawn_tls s s' : Inv s -> lstep s LStartSpawnTLS = Some s' -> Inv s'.
@@ -282,7 +288,8 @@ Proof.
     | (try rewrite <- F; intros _; apply (i_cfg_t s I); orP P)
     | (try rewrite <- F; intros _ l Hl; destruct (i_run_p s I (or_introl P) l Hl) as (l0 & E & Hin & a & Ha & A1 & A2); exists l0; split; [exact E|]; split; [exact Hin|]; exists a; split; [right; exact Ha|auto])
     | (try rewrite <- F; intros _ l Hl; exists lis; split; [exact F|]; split; [exact Op|]; eexists; split; [left; reflexivity|]; split; reflexivity)
-    | (try rewrite <- F; intros _; apply (i_exact s I); rewrite P; discriminate) ].
+    | (try rewrite <- F; intros _; apply (i_exact s I); rewrite P; split; discriminate)
+    | (keep I) ].
   - constructor; projs; [
       (keep I)
     | (keep I)
@@ -303,7 +310,8 @@ Proof.
     | (intros _ Hc; exfalso; apply (i_cfg_t s I ltac:(orP P) Hc); exact F)
     | (intros _; apply (i_run_p s I); auto)
     | (intros _ l Hl; discriminate)
-    | (intros _; apply (i_exact s I); rewrite P; discriminate) ].
+    | (intros _; apply (i_exact s I); rewrite P; split; discriminate)
+    | (keep I) ].
 Qed.
 
 Lemma inv_stop_begin s s' : Inv s -> lstep s LStopBegin = Some s' -> Inv s'.
@@ -329,7 +337,8 @@ Proof.
     | (intros _; apply (i_cfg_t s I); orP P)
     | (intros _; apply (i_run_p s I); orP P)
     | (intros _; apply (i_run_t s I); orP P)
-    | (intros _; apply (i_exact s I); rewrite P; discriminate) ].
+    | (intros _; apply (i_exact s I); rewrite P; split; discriminate)
+    | (keep I) ].
 Qed.
 
 Lemma inv_stop_close_lis s s' : Inv s -> lstep s LStopCloseLis = Some s' -> Inv s'.
@@ -362,7 +371,8 @@ Proof.
     | (intros H; split_or H)
     | (intros H; split_or H)
     | (intros H; split_or H)
-    | (intros _; apply (i_exact s I); rewrite P; discriminate) ].
+    | (intros _; apply (i_exact s I); rewrite P; split; discriminate)
+    | (keep I) ].
 Qed.
 
 Lemma inv_stop_wait_accept s s' : Inv s -> lstep s LStopWaitAccept = Some s' -> Inv s'.
@@ -391,18 +401,29 @@ Proof.
     | (intros H; split_or H)
     | (intros H; split_or H)
     | (intros H; split_or H)
-    | (intros _; apply (i_exact s I); rewrite P; discriminate) ].
+    | (intros _; apply (i_exact s I); rewrite P; split; discriminate)
+    | (keep I) ].
 Qed.
 
-Lemma inv_stop_close_conns s s' : Inv s -> lstep s LStopCloseConns = Some s' -> Inv s'.
+Lemma close_reg_id reg c : ct_id (close_reg reg c) = ct_id c.
+Proof. unfold close_reg. destruct (mem_nat (ct_id c) reg); reflexivity. Qed.
+Lemma close_reg_st reg c : ct_st (close_reg reg c) = ct_st c.
+Proof. unfold close_reg. destruct (mem_nat (ct_id c) reg); reflexivity. Qed.
+Lemma count_map_close_reg reg l : count not_done (map (close_reg reg) l) = count not_done l.
+Proof.
+  induction l as [|x l IH]; [reflexivity|]. cbn [map]. rewrite !count_cons, IH. unfold not_done. rewrite close_reg_st. reflexivity.
+Qed.
+
+Lemma inv_stop_close_reg s s' : Inv s -> lstep s LStopCloseReg = Some s' -> Inv s'.
 Proof.
   intros I H. cbn [lstep] in H. destruct (pc s) eqn:P; try discriminate. inversion H; subst; clear H.
   constructor; projs; [
-      (rewrite map_map; cbn [close_conn ct_id]; exact (i_nodup s I))
-    | (intros c Hc; apply in_map_iff in Hc; destruct Hc as (c0 & <- & Hc0); cbn [close_conn ct_id]; apply (i_ids s I); exact Hc0)
-    | (rewrite count_map_close; exact (i_cwg s I))
+      (rewrite map_map; rewrite (map_ext _ ct_id (close_reg_id (registry s))); exact (i_nodup s I))
+    | (intros c Hc; apply in_map_iff in Hc; destruct Hc as (c0 & <- & Hc0); rewrite close_reg_id; apply (i_ids s I); exact Hc0)
+    | (rewrite count_map_close_reg; exact (i_cwg s I))
     | (intros id [])
-    | (intros c Hc _; apply in_map_iff in Hc; destruct Hc as (c0 & <- & Hc0); reflexivity)
+    | (intros c Hc Hd; apply in_map_iff in Hc; destruct Hc as (c0 & <- & Hc0); rewrite close_reg_st in Hd; unfold close_reg;
+       destruct (mem_nat (ct_id c0) (registry s)); [reflexivity|exact (i_done s I c0 Hc0 Hd)])
     | (keep I)
     | (keep I)
     | (keep I)
@@ -417,7 +438,36 @@ Proof.
     | (intros H; split_or H)
     | (intros H; split_or H)
     | (intros H; split_or H)
-    | (intros H; exfalso; apply H; reflexivity) ].
+    | (intros [H _]; exfalso; apply H; reflexivity)
+    | (intros c Hc Hn; apply in_map_iff in Hc; destruct Hc as (c0 & <- & Hc0); rewrite close_reg_id; apply (i_live s I c0 Hc0); unfold not_done in *; rewrite close_reg_st in Hn; exact Hn) ].
+Qed.
+
+Lemma inv_stop_close_conns s s' : Inv s -> lstep s LStopCloseConns = Some s' -> Inv s'.
+Proof.
+  intros I H. cbn [lstep] in H. destruct (pc s) eqn:P; try discriminate. inversion H; subst; clear H.
+  constructor; projs; [
+      (rewrite map_map; rewrite (map_ext _ ct_id (close_reg_id (live s))); exact (i_nodup s I))
+    | (intros c Hc; apply in_map_iff in Hc; destruct Hc as (c0 & <- & Hc0); rewrite close_reg_id; apply (i_ids s I); exact Hc0)
+    | (rewrite count_map_close_reg; exact (i_cwg s I))
+    | (intros id Hid; destruct (i_reg s I id Hid) as (c & Hc & E1 & E2); exists (close_reg (live s) c); split; [apply in_map; exact Hc|split; [rewrite close_reg_id; exact E1|rewrite close_reg_st; exact E2]])
+    | (intros c Hc Hd; apply in_map_iff in Hc; destruct Hc as (c0 & <- & Hc0); rewrite close_reg_st in Hd; unfold close_reg;
+       destruct (mem_nat (ct_id c0) (live s)); [reflexivity|exact (i_done s I c0 Hc0 Hd)])
+    | (keep I)
+    | (keep I)
+    | (keep I)
+    | (keep I)
+    | (keep I)
+    | (keep I)
+    | (intros _; apply (i_closed s I); unfold stopped_phase; orP P)
+    | (intros _; apply (i_noloops s I); unfold no_loop_phase; orP P)
+    | (discriminate)
+    | (intros H; split_or H)
+    | (intros H; split_or H)
+    | (intros H; split_or H)
+    | (intros H; split_or H)
+    | (intros H; split_or H)
+    | (intros [_ H]; exfalso; apply H; reflexivity)
+    | (intros c Hc Hn; apply in_map_iff in Hc; destruct Hc as (c0 & <- & Hc0); rewrite close_reg_id; apply (i_live s I c0 Hc0); unfold not_done in *; rewrite close_reg_st in Hn; exact Hn) ].
 Qed.
 
 Lemma inv_stop_wait_conns s s' : Inv s -> lstep s LStopWaitConns = Some s' -> Inv s'.
@@ -446,7 +496,8 @@ Proof.
     | (intros H; split_or H)
     | (intros H; split_or H)
     | (intros H; split_or H)
-    | (intros _ c Hc Hs; rewrite (AD c Hc) in Hs; discriminate) ].
+    | (intros _ c Hc Hs; rewrite (AD c Hc) in Hs; discriminate)
+    | (keep I) ].
 Qed.
 
 Lemma nodup_same_id l a b : NoDup (map ct_id l) -> In a l -> In b l -> ct_id a = ct_id b -> a = b.
@@ -482,7 +533,8 @@ Proof.
     | (intros Hp; exact (i_cfg_t s I Hp))
     | (intros Hp; exact (i_run_p s I Hp))
     | (intros Hp; exact (i_run_t s I Hp))
-    | (intros Hp; exact (i_exact s I Hp)) ].
+    | (intros Hp; exact (i_exact s I Hp))
+    | (keep I) ].
   - constructor; projs; [
       (cbn [map ct_id]; constructor; [intros Hin; apply in_map_iff in Hin; destruct Hin as (c0 & E0 & Hc0); pose proof (i_ids s I c0 Hc0); lia|exact (i_nodup s I)])
     | (intros c [<-|Hc]; [cbn [ct_id]; lia|pose proof (i_ids s I c Hc); lia])
@@ -503,7 +555,8 @@ Proof.
     | (intros Hp; exact (i_cfg_t s I Hp))
     | (intros Hp; exact (i_run_p s I Hp))
     | (intros Hp; exact (i_run_t s I Hp))
-    | (intros Hp c [<-|Hc] Hs; [discriminate|exact (i_exact s I Hp c Hc Hs)]) ].
+    | (intros Hp c [<-|Hc] Hs; [discriminate|exact (i_exact s I Hp c Hc Hs)])
+    | (intros c [<-|Hc] Hn; [left; reflexivity|right; exact (i_live s I c Hc Hn)]) ].
 Qed.
 
 Lemma inv_accept_fail lis s s' : Inv s -> lstep s (LAcceptFail lis) = Some s' -> Inv s'.
@@ -533,7 +586,8 @@ Proof.
     | (intros Hp; exact (i_cfg_t s I Hp))
     | (intros Hp l Hl; destruct (i_run_p s I Hp l Hl) as (l0 & E0 & Hin & a0 & Ha0 & B1 & B2); unfold serving; projs; exists l0; split; [exact E0|]; split; [exact Hin|]; exists a0; split; [|auto]; replace a0 with (if Nat.eqb (al_lis a0) lis then {| al_lis := al_lis a0; al_tls := al_tls a0; al_done := true |} else a0); [unfold set_loop_done; apply in_map_iff; exists a0; split; [reflexivity|exact Ha0]|]; destruct (Nat.eqb (al_lis a0) lis) eqn:E1; [|reflexivity]; apply Nat.eqb_eq in E1; exfalso; apply NM; rewrite <- E1, B1; exact Hin)
     | (intros Hp l Hl; destruct (i_run_t s I Hp l Hl) as (l0 & E0 & Hin & a0 & Ha0 & B1 & B2); unfold serving; projs; exists l0; split; [exact E0|]; split; [exact Hin|]; exists a0; split; [|auto]; replace a0 with (if Nat.eqb (al_lis a0) lis then {| al_lis := al_lis a0; al_tls := al_tls a0; al_done := true |} else a0); [unfold set_loop_done; apply in_map_iff; exists a0; split; [reflexivity|exact Ha0]|]; destruct (Nat.eqb (al_lis a0) lis) eqn:E1; [|reflexivity]; apply Nat.eqb_eq in E1; exfalso; apply NM; rewrite <- E1, B1; exact Hin)
-    | (intros Hp; exact (i_exact s I Hp)) ].
+    | (intros Hp; exact (i_exact s I Hp))
+    | (keep I) ].
 Qed.
 
 Lemma inv_handshake_fail id s s' : Inv s -> lstep s (LHandshakeFail id) = Some s' -> Inv s'.
@@ -562,7 +616,8 @@ Proof.
     | (intros Hp; exact (i_cfg_t s I Hp))
     | (intros Hp; exact (i_run_p s I Hp))
     | (intros Hp; exact (i_run_t s I Hp))
-    | (intros Hp c0 Hc0 Hs; apply in_set_conn in Hc0; destruct Hc0 as (c1 & Hc1 & ->); destruct (Nat.eqb (ct_id c1) id); [discriminate|exact (i_exact s I Hp c1 Hc1 Hs)]) ].
+    | (intros Hp c0 Hc0 Hs; apply in_set_conn in Hc0; destruct Hc0 as (c1 & Hc1 & ->); destruct (Nat.eqb (ct_id c1) id); [discriminate|exact (i_exact s I Hp c1 Hc1 Hs)])
+    | (intros c0 Hc0 Hn; apply in_set_conn in Hc0; destruct Hc0 as (c1 & Hc1 & ->); destruct (Nat.eqb (ct_id c1) id) eqn:E1; [discriminate|apply in_remove_nat; split; [exact (i_live s I c1 Hc1 Hn)|apply Nat.eqb_neq; exact E1]]) ].
 Qed.
 
 Lemma inv_reject id s s' : Inv s -> lstep s (LReject id) = Some s' -> Inv s'.
@@ -591,7 +646,8 @@ Proof.
     | (intros Hp; exact (i_cfg_t s I Hp))
     | (intros Hp; exact (i_run_p s I Hp))
     | (intros Hp; exact (i_run_t s I Hp))
-    | (intros Hp c0 Hc0 Hs; apply in_set_conn in Hc0; destruct Hc0 as (c1 & Hc1 & ->); destruct (Nat.eqb (ct_id c1) id); [discriminate|exact (i_exact s I Hp c1 Hc1 Hs)]) ].
+    | (intros Hp c0 Hc0 Hs; apply in_set_conn in Hc0; destruct Hc0 as (c1 & Hc1 & ->); destruct (Nat.eqb (ct_id c1) id); [discriminate|exact (i_exact s I Hp c1 Hc1 Hs)])
+    | (intros c0 Hc0 Hn; apply in_set_conn in Hc0; destruct Hc0 as (c1 & Hc1 & ->); destruct (Nat.eqb (ct_id c1) id) eqn:E1; [discriminate|apply in_remove_nat; split; [exact (i_live s I c1 Hc1 Hn)|apply Nat.eqb_neq; exact E1]]) ].
 Qed.
 
 Lemma inv_admit id s s' : Inv s -> lstep s (LAdmit id) = Some s' -> Inv s'.
@@ -620,7 +676,8 @@ Proof.
     | (intros Hp; exact (i_cfg_t s I Hp))
     | (intros Hp; exact (i_run_p s I Hp))
     | (intros Hp; exact (i_run_t s I Hp))
-    | (intros Hp c0 Hc0 Hs; apply in_set_conn in Hc0; destruct Hc0 as (c1 & Hc1 & ->); destruct (Nat.eqb (ct_id c1) id) eqn:E1; [left; cbn [register_conn ct_id]; apply Nat.eqb_eq in E1; symmetry; exact E1|right; exact (i_exact s I Hp c1 Hc1 Hs)]) ].
+    | (intros Hp c0 Hc0 Hs; apply in_set_conn in Hc0; destruct Hc0 as (c1 & Hc1 & ->); destruct (Nat.eqb (ct_id c1) id) eqn:E1; [left; cbn [register_conn ct_id]; apply Nat.eqb_eq in E1; symmetry; exact E1|right; exact (i_exact s I Hp c1 Hc1 Hs)])
+    | (intros c0 Hc0 Hn; apply in_set_conn in Hc0; destruct Hc0 as (c1 & Hc1 & ->); destruct (Nat.eqb (ct_id c1) id) eqn:E1; [cbn [register_conn ct_id]; apply (i_live s I c1 Hc1); apply Nat.eqb_eq in E1; rewrite (nodup_same_id (conns s) c1 c (i_nodup s I) Hc1 C1 (eq_trans E1 (eq_sym C2))); unfold not_done; rewrite St; reflexivity|exact (i_live s I c1 Hc1 Hn)]) ].
 Qed.
 
 Lemma inv_finish id s s' : Inv s -> lstep s (LFinish id) = Some s' -> Inv s'.
@@ -649,6 +706,7 @@ Proof.
     | (intros Hp; exact (i_cfg_t s I Hp))
     | (intros Hp; exact (i_run_p s I Hp))
     | (intros Hp; exact (i_run_t s I Hp))
-    | (intros Hp c0 Hc0 Hs; apply in_set_conn in Hc0; destruct Hc0 as (c1 & Hc1 & ->); destruct (Nat.eqb (ct_id c1) id) eqn:E1; [discriminate|]; apply in_remove_nat; split; [exact (i_exact s I Hp c1 Hc1 Hs)|apply Nat.eqb_neq; exact E1]) ].
+    | (intros Hp c0 Hc0 Hs; apply in_set_conn in Hc0; destruct Hc0 as (c1 & Hc1 & ->); destruct (Nat.eqb (ct_id c1) id) eqn:E1; [discriminate|]; apply in_remove_nat; split; [exact (i_exact s I Hp c1 Hc1 Hs)|apply Nat.eqb_neq; exact E1])
+    | (intros c0 Hc0 Hn; apply in_set_conn in Hc0; destruct Hc0 as (c1 & Hc1 & ->); destruct (Nat.eqb (ct_id c1) id) eqn:E1; [discriminate|apply in_remove_nat; split; [exact (i_live s I c1 Hc1 Hn)|apply Nat.eqb_neq; exact E1]]) ].
 Qed.
 
